@@ -82,6 +82,21 @@ def first_leaf(e):
             return e
 
 
+def expand_atoms(node):
+    """named opaque literals of the models ([t |-> "atom", k, a |-> "i63"]) written out as the literals they stand for"""
+    from . import values
+    if isinstance(node, list):
+        return [expand_atoms(x) for x in node]
+    if not isinstance(node, dict):
+        return node
+    if node.get("t") == "atom" and isinstance(node.get("a"), str) and node["a"] in values.ATOMS:
+        x = values.ATOMS[node["a"]]
+        if isinstance(x, int):
+            return {"t": "neg", "a": {"t": "int", "n": -x}} if x < 0 else {"t": "int", "n": x}
+        raise ValueError("only integer atoms can be written as literals")
+    return {k: expand_atoms(v) for k, v in node.items()}
+
+
 def expr_tokens(e, rng=None):
     """tokens of an expression; glue=True means 'no space before' in the natural layout"""
     t = e["t"]
@@ -262,6 +277,10 @@ def script_lines(s, rng=None):
 
 DEFAULT_LAYOUT = dict(nl="\n", indent="    ", final_nl=True, spaced=False)
 
+# comment texts: code-like text, quotes, braces, and characters that some string methods treat as line ends (form feed, vertical tab,
+# file/group/record separators, NEL, LINE/PARAGRAPH SEPARATOR) but the grammar does not (a comment runs to the next CR or LF)
+COMMENTS = ["# a comment line, with = | [ symbols {x}", "# trailing comment | 1", "#", "# \"unterminated string", "# tab\tinside",
+            "# was:\x0cVgate(1) | 3", "# page\x0bbreak \x1c \x1d \x1e", "# next\x85Vac | 9", "# caf\u00e9 \u2028Vac | 8\u2029 x", "## for int i in 0:3"]
 # layout the language declares insignificant (C18); every key is optional:
 #   nl: "\n" | "\r\n" | "\r"      indent: "\t" | "    "      final_nl: bool
 #   spaced: a space at EVERY token boundary        wide: 1..3 spaces wherever there is one
@@ -298,10 +317,10 @@ def render(s, rng=None, layout=None):
             if lrng.random() < lay.get("blank", 0):
                 out.append("")
             if lrng.random() < lay.get("own_comment", 0):
-                out.append("# a comment line, with = | [ symbols {x}")
+                out.append(lrng.choice(COMMENTS))
         line = (lay["indent"] if ind else "") + join_line(toks, lay, rng)
         if lrng.random() < lay.get("eol_comment", 0):
-            line += " " * lrng.randint(1, 2) + "# trailing comment | 1"
+            line += " " * lrng.randint(1, 2) + lrng.choice(COMMENTS)
         elif lrng.random() < lay.get("trail", 0):
             line += " " * lrng.randint(1, 3)
         out.append(line)
